@@ -660,6 +660,81 @@ func gen(o hreg.Opts, w *bufio.Writer) error {
 			emit("fixed", l)
 		}
 	}
+	// 1b. long histories: far more than 16 / 64 items of one kind in one pool (a silent cap anywhere would show)
+	longAtt := func(n, count int, pairs bool, slot uint64) {
+		comm := make([]uint64, n)
+		for j := range comm {
+			comm[j] = uint64(j)
+		}
+		made := 0
+		for k := 0; made < count; k++ {
+			b := make([]bool, n)
+			if pairs {
+				if 2*k+1 >= n {
+					break
+				}
+				b[2*k], b[2*k+1] = true, true
+			} else { // one new attester per aggregate (bit 0 is shared: a single bit would be an individual attestation)
+				if k+1 >= n {
+					break
+				}
+				b[0], b[k+1] = true, true
+			}
+			made++
+			emit("att-long", attLine{slot: slot, index: 1, target: slot / 4, tag: 0, bits: encodeBits(b), sig: uint64(1000 + k), comm: comm}.String())
+			if made == 16 || made == 17 || made == 27 || made == 65 {
+				emit("search", "search * *")
+			}
+		}
+		st.Add("same-data-aggregates", strconv.Itoa(made))
+		emit("search", "search * *")
+		emit("search", fmt.Sprintf("search %d 1", slot))
+	}
+	longOthers := func(count int, slot uint64) {
+		for k := 0; k < count; k++ {
+			emit("exit", fmt.Sprintf("exit %d %d", k, k%3))
+			emit("pslash", fmt.Sprintf("pslash %d %d", k, k%2))
+			emit("aslash", fmt.Sprintf("aslash %d %d", k, k%5))
+			emit("smsg", fmt.Sprintf("smsg %d %d %d", slot, k, k%3))
+			emit("scontrib", fmt.Sprintf("scontrib %d %d %d %s %d", slot, k%2, k%4, hexOf([]byte{byte(k + 1)}), k))
+			// individual attestations: one per validator, all for the same data
+			b := make([]bool, count)
+			b[k] = true
+			comm := make([]uint64, count)
+			for j := range comm {
+				comm[j] = uint64(200 + j)
+			}
+			emit("att-long", attLine{slot: 9, index: 0, target: 2, tag: 1, bits: encodeBits(b), sig: uint64(k), comm: comm}.String())
+		}
+		st.Add("items-per-pool", strconv.Itoa(count))
+		for _, l := range []string{"exits", "pslashes", "aslashes", "sdump", "search * *", "exit 0 0", "pslash 1 1", "aslash 2 2"} {
+			emit("long-query", l)
+		}
+		// a double vote by the last of the many individual attesters is still reported
+		b := make([]bool, count)
+		b[count-1] = true
+		comm := make([]uint64, count)
+		for j := range comm {
+			comm[j] = uint64(200 + j)
+		}
+		emit("att-long", attLine{slot: 9, index: 0, target: 2, tag: 2, bits: encodeBits(b), sig: 7, comm: comm}.String())
+	}
+	for _, c := range []struct {
+		n, count int
+		pairs    bool
+	}{{24, 20, false}, {40, 33, false}, {128, 70, false}, {40, 20, true}, {128, 64, true}, {18, 17, false}} {
+		fmt.Fprintln(w, "reset")
+		longAtt(c.n, c.count, c.pairs, 5)
+		emit("prune", "prune 3")
+		emit("search", "search * *")
+	}
+	for _, c := range []int{20, 70} {
+		fmt.Fprintln(w, "reset")
+		emit("sreset", "sreset 40")
+		longOthers(c, 40)
+		emit("sreset", "sreset 41")
+		emit("sdump", "sdump")
+	}
 	// 2. AttestationBits functions: exhaustive over all one-byte and a grid of two-byte bitlists
 	fmt.Fprintln(w, "reset")
 	for a := 0; a < 256; a++ {
@@ -796,6 +871,13 @@ func gen(o hreg.Opts, w *bufio.Writer) error {
 		var past []attLine
 		curSync := maxU
 		nOps := 5 + rng.Intn(26)
+		if rng.Intn(60) == 0 { // a long same-data history, then the ordinary mix on top of it
+			st.Add("seq-kind", "long-same-data")
+			longAtt(18+rng.Intn(112), 17+rng.Intn(60), rng.Intn(3) == 0, baseSlot+1)
+		} else if rng.Intn(120) == 0 {
+			st.Add("seq-kind", "long-other-pools")
+			longOthers(17+rng.Intn(70), maxU)
+		}
 		syncFocus := rng.Intn(5) == 0 // a sequence that mostly drives the sync-committee pool
 		if syncFocus {
 			st.Add("seq-kind", "sync-focus")
